@@ -392,7 +392,15 @@ start:
 
 			switch v := instr.(type) {
 			case *ir.Convert:
-				s.set(v, s.get(v.X))
+				if typeutil.IsPointerLike(v.X.Type()) {
+					s.set(v, s.get(v.X))
+				} else if b, ok := v.X.Type().Underlying().(*types.Basic); ok && b.Info()&types.IsString != 0 {
+					// Converting a string to a slice yields a non-nil slice.
+					s.setOuter(v, NeverNil)
+				} else {
+					// For example uintptr to unsafe.Pointer.
+					s.set(v, ValueNilness{MaybeNil, MaybeNil})
+				}
 			case *ir.SliceToArrayPointer:
 				// Go does not currently allow (*T)(s) where T is a type
 				// parameter with a type set consisting of array types, but it
